@@ -3,7 +3,7 @@
 import json, os
 V = os.path.dirname(os.path.dirname(os.path.abspath(__file__)))
 props = [json.loads(l) for l in open(os.path.join(V, "properties.jsonl"))]
-NOTE = ("trusted base: TLC/SANY, CommunityModules, JDK MessageDigest/AES and the Java primitive overrides (self-tested by "
+NOTE = ("every functional check also runs slim passes on the FIPS_MODE=y (legacy entry points), SAFE_DATA=n and lib_debug=1 builds; trusted base: TLC/SANY, CommunityModules, JDK MessageDigest/AES and the Java primitive overrides (self-tested by "
         "setup_cmd against published vectors and the TLA+ definitions), the harness trampoline and its projection of public "
         "structs; the host CPU executes every family")
 CLAIMS = {
